@@ -1,0 +1,116 @@
+//go:build verif
+
+/*
+ * Atree - Scalable Arrays and Ordered Maps
+ *
+ * Copyright Flow Foundation
+ *
+ * Licensed under the Apache License, Version 2.0 (the "License");
+ * you may not use this file except in compliance with the License.
+ * You may obtain a copy of the License at
+ *
+ *   http://www.apache.org/licenses/LICENSE-2.0
+ *
+ * Unless required by applicable law or agreed to in writing, software
+ * distributed under the License is distributed on an "AS IS" BASIS,
+ * WITHOUT WARRANTIES OR CONDITIONS OF ANY KIND, either express or implied.
+ * See the License for the specific language governing permissions and
+ * limitations under the License.
+ */
+
+package atree
+
+// Verification hooks. This file only exists for the compiler when the build tag
+// "verif" is set. It adds read-only accessors to unexported state and setters for
+// the two process-wide settings; it does not change any existing declaration.
+
+// VerifSetThreshold calls setThreshold and returns all six derived settings:
+// target, min, max, maxInlineArrayElementSize, maxInlineMapElementSize, maxInlineMapKeySize.
+func VerifSetThreshold(threshold uint32) [6]uint32 {
+	setThreshold(threshold)
+	return VerifSettings()
+}
+
+func VerifSettings() [6]uint32 {
+	return [6]uint32{
+		targetThreshold,
+		minThreshold,
+		maxThreshold,
+		maxInlineArrayElementSize,
+		maxInlineMapElementSize,
+		maxInlineMapKeySize,
+	}
+}
+
+func VerifSetMaxCollisionLimitPerDigest(limit uint32) uint32 {
+	old := maxCollisionLimitPerDigest
+	maxCollisionLimitPerDigest = limit
+	return old
+}
+
+type VerifConst struct {
+	Name string
+	Val  uint64
+}
+
+// VerifConsts lists the size constants, limits and tag numbers the formal model is stated over.
+func VerifConsts() []VerifConst {
+	return []VerifConst{
+		{"defaultSlabSize", uint64(defaultSlabSize)},
+		{"minSlabSize", uint64(minSlabSize)},
+		{"maxSlabSize", uint64(maxSlabSize)},
+		{"minElementCountInSlab", uint64(minElementCountInSlab)},
+		{"versionAndFlagSize", uint64(versionAndFlagSize)},
+		{"slabAddressLength", uint64(SlabAddressLength)},
+		{"slabIndexLength", uint64(SlabIndexLength)},
+		{"slabIDLength", uint64(SlabIDLength)},
+		{"arraySlabHeaderSize", uint64(arraySlabHeaderSize)},
+		{"arrayMetaDataSlabPrefixSize", uint64(arrayMetaDataSlabPrefixSize)},
+		{"arrayDataSlabElementHeadSize", uint64(arrayDataSlabElementHeadSize)},
+		{"arrayDataSlabPrefixSize", uint64(arrayDataSlabPrefixSize)},
+		{"arrayRootDataSlabPrefixSize", uint64(arrayRootDataSlabPrefixSize)},
+		{"inlinedArrayDataSlabPrefixSize", uint64(inlinedArrayDataSlabPrefixSize)},
+		{"maxInlinedExtraDataIndex", uint64(maxInlinedExtraDataIndex)},
+		{"digestSize", uint64(digestSize)},
+		{"singleElementPrefixSize", uint64(singleElementPrefixSize)},
+		{"inlineCollisionGroupPrefixSize", uint64(inlineCollisionGroupPrefixSize)},
+		{"externalCollisionGroupPrefixSize", uint64(externalCollisionGroupPrefixSize)},
+		{"digestPrefixSize", uint64(digestPrefixSize)},
+		{"elementPrefixSize", uint64(elementPrefixSize)},
+		{"hkeyElementsPrefixSize", uint64(hkeyElementsPrefixSize)},
+		{"singleElementsPrefixSize", uint64(singleElementsPrefixSize)},
+		{"mapSlabHeaderSize", uint64(mapSlabHeaderSize)},
+		{"mapMetaDataSlabPrefixSize", uint64(mapMetaDataSlabPrefixSize)},
+		{"mapDataSlabPrefixSize", uint64(mapDataSlabPrefixSize)},
+		{"mapRootDataSlabPrefixSize", uint64(mapRootDataSlabPrefixSize)},
+		{"maxDigestLevel", uint64(maxDigestLevel)},
+		{"inlinedMapDataSlabPrefixSize", uint64(inlinedMapDataSlabPrefixSize)},
+		{"slabIDStorableSize", uint64(SlabIDStorable{}.ByteSize())},
+		{"linearScanThreshold", uint64(linearScanThreshold)},
+		{"defaultMaxCollisionLimitPerDigest", uint64(255)},
+		{"maxArrayElementCount", uint64(^uint32(0))},
+	}
+}
+
+// VerifStorageKeys returns the key sets of the write set and the read cache with nil-ness.
+func VerifStorageKeys(s *PersistentSlabStorage) (deltas map[SlabID]bool, cache map[SlabID]bool) {
+	deltas = make(map[SlabID]bool, len(s.deltas))
+	for k, v := range s.deltas {
+		deltas[k] = v != nil
+	}
+	cache = make(map[SlabID]bool, len(s.cache))
+	for k, v := range s.cache {
+		cache[k] = v != nil
+	}
+	return deltas, cache
+}
+
+func VerifStorageDeltaSlab(s *PersistentSlabStorage, id SlabID) (Slab, bool) {
+	v, ok := s.deltas[id]
+	return v, ok
+}
+
+func VerifStorageCacheSlab(s *PersistentSlabStorage, id SlabID) (Slab, bool) {
+	v, ok := s.cache[id]
+	return v, ok
+}
